@@ -249,6 +249,8 @@ class Interp:
             if isinstance(v, tuple): return tuple(FV(self.dom.neg(x.sym), None if x.num is None else -x.num) for x in v)
             return self.wrap(-v, t)
         if i in ("=", "notequal", "<", "<=", ">", ">="): return self.compare(i, e)
+        if i == "ieee_float_equal": return self.compare("=", e)
+        if i == "ieee_float_notequal": return self.compare("notequal", e)
         if i == "not": return not self.truth(self.eval(e["sub"][0]))
         if i == "and":
             for s in e["sub"]:
